@@ -204,6 +204,64 @@ func init() {
 		}
 		return Slice{A: out}
 	})
+	v("Snapshot", func(ex *Exec, fr *Frame, a []Value) Value {
+		dir := filepath.Clean(strOf(a[0]))
+		sn := &snapV{}
+		for _, e := range ex.fs().Files {
+			n, ok := baseName(e.Path, dir)
+			if !ok {
+				continue
+			}
+			if s, isStr := n.(string); isStr && s == ".lock" {
+				continue
+			}
+			sn.names = append(sn.names, n)
+			sn.data = append(sn.data, append([]*term.T{}, e.Inode.Data...))
+			sn.size = append(sn.size, e.Inode.sizeTerm())
+		}
+		c := new(Value)
+		*c = &Native{Kind: "snap", Data: sn}
+		return c
+	})
+	v("SameSnapshot", func(ex *Exec, fr *Frame, a []Value) Value {
+		x := (*(a[0].(*Value))).(*Native).Data.(*snapV)
+		y := (*(a[1].(*Value))).(*Native).Data.(*snapV)
+		if len(x.names) != len(y.names) {
+			return term.False
+		}
+		var cs []*term.T
+		used := make([]bool, len(y.names))
+		for i := range x.names {
+			// match by name (symbolic names: the equality becomes part of the condition)
+			var alts []*term.T
+			for j := range y.names {
+				if used[j] {
+					continue
+				}
+				eq := equalValues(x.names[i], y.names[j])
+				if eq.IsFalse() {
+					continue
+				}
+				c := []*term.T{eq, term.Eq(x.size[i], y.size[j])}
+				n := min(len(x.data[i]), len(y.data[j]))
+				for k := 0; k < n; k++ {
+					if x.data[i][k] != y.data[j][k] {
+						c = append(c, term.Or(term.Sle(x.size[i], mkInt(int64(k))), term.Eq(x.data[i][k], y.data[j][k])))
+					}
+				}
+				if len(x.data[i]) != len(y.data[j]) {
+					c = append(c, term.Sle(x.size[i], mkInt(int64(n))))
+				}
+				alts = append(alts, term.And(c...))
+				if eq.IsTrue() {
+					used[j] = true
+					break
+				}
+			}
+			cs = append(cs, term.Or(alts...))
+		}
+		return term.And(cs...)
+	})
 	v("SegOffsets", func(ex *Exec, fr *Frame, a []Value) Value {
 		r := ex.fsReadDir(strOf(a[0])).(Tuple)
 		var out []Value
@@ -259,5 +317,11 @@ func init() {
 }
 
 func (ex *Exec) crashCheck() {}
+
+type snapV struct {
+	names []Value
+	data  [][]*term.T
+	size  []*term.T
+}
 
 var _ = fmt.Sprint
